@@ -1,9 +1,51 @@
 import ErrModel.Transport
+import ErrModel.Accessors
 /-
   The visible cause tree with its Error() text at every node — what C01 compares
   before and after transfer.
 -/
 namespace ErrModel
+
+/-- keys under which a printed stack is recognised after transfer (withstack/reportable.go) -/
+def isStackKey (k : Str) : Bool :=
+  k = (WrapKind.withStack []).ty.full || k = (WrapKind.pkgWithStack []).ty.full || k = (LeafKind.pkgFundamental [] []).ty.full
+
+/-- the printed stack `GetReportableStackTrace` parses for one layer -/
+def layerStackStr (P : Proc) : Err → Option Str
+  | .wrap _ (.withStack st) _ => if st = [] then none else some (printStack st)
+  | .wrap _ (.pkgWithStack st) _ => if st = [] then none else some (printStack st)
+  | .leaf _ (.pkgFundamental _ st) => if st = [] then none else some (printStack st)
+  | e =>
+    match e.opaqueDet with
+    | some d => if isStackKey (typeMark P e).fam then d.rep.head? else none
+    | none => none
+
+/-- the annotations one layer contributes to the public accessors -/
+structure Ann where
+  hint : Option Str
+  detail : Option Str
+  link : Option (Str × Str)
+  keys : List Str
+  domain : Option Str
+  tags : Option (List (Str × Str))
+  http : Option Nat
+  grpc : Option Nat
+  isAssert : Bool
+  isUnimpl : Bool
+  isLink : Bool
+  timeout : Bool
+  safe : List Str           -- per-layer safe details ([] for barrier and secondary layers, which embed a rendering)
+  stack : Option Str        -- printed stack of a reportable layer
+  deriving DecidableEq, Repr, Inhabited
+
+def safeOf (vf : Err → Str) : Err → List Str
+  | .barrier .. => []
+  | .second .. => []
+  | e => layerDetails Full vf e
+
+def annOf (vf : Err → Str) (e : Err) : Ann :=
+  ⟨layerHint e, layerDetail e, layerIssueLink e, layerKeys e, layerDomain e, layerTags e, layerHTTP e, layerGrpc e,
+   isAssertionFailure e, isUnimplementedError e, isWithIssueLink e, timeoutLayer e, safeOf vf e, layerStackStr Full e⟩
 
 /-- What `Is` (and C01/C04) can observe of one visible layer, identity aside. -/
 structure Lbl where
@@ -14,6 +56,7 @@ structure Lbl where
   isSig : Option (Bool × Bool × Bool) -- what an errno-like layer's Is method answers for ErrPermission/ErrExist/ErrNotExist
   multi : Bool                        -- a multi-cause layer (its children are branches, not a cause)
   stSig : Option (Nat × Str × Nat)    -- a gRPC *status.Error layer: what its Is method compares
+  ann : Ann                           -- what the layer contributes to the accessors
   deriving DecidableEq, Repr, Inhabited
 
 def storedMark : Err → Option Mark
@@ -33,8 +76,8 @@ def stSigOf : Err → Option (Nat × Str × Nat)
   | .leaf _ (.grpcStatus c m nd) => some (c, m, nd)
   | _ => none
 
-def label (e : Err) : Lbl :=
-  ⟨text e, typeMark Full e, origTypeName e, storedMark e, isSigOf e, isMultiNode e, stSigOf e⟩
+def label (vf : Err → Str) (e : Err) : Lbl :=
+  ⟨text e, typeMark Full e, origTypeName e, storedMark e, isSigOf e, isMultiNode e, stSigOf e, annOf vf e⟩
 
 inductive TTree
   | node (l : Lbl) (kids : List TTree)
@@ -43,25 +86,28 @@ inductive TTree
 def TTree.text : TTree → Str
   | .node l _ => l.text
 
+section
+variable (vf : Err → Str)
 mutual
 def shape : Err → TTree
-  | .leaf id k => .node (label (.leaf id k)) []
-  | .barrier id m h => .node (label (.barrier id m h)) []
-  | .wrap id k c => .node (label (.wrap id k c)) [shape c]
-  | .second id c s => .node (label (.second id c s)) [shape c]
-  | .multi id k cs => .node (label (.multi id k cs)) (shapeL cs)
+  | .leaf id k => .node (label vf (.leaf id k)) []
+  | .barrier id m h => .node (label vf (.barrier id m h)) []
+  | .wrap id k c => .node (label vf (.wrap id k c)) [shape c]
+  | .second id c s => .node (label vf (.second id c s)) [shape c]
+  | .multi id k cs => .node (label vf (.multi id k cs)) (shapeL cs)
 def shapeL : List Err → List TTree
   | [] => []
   | e :: r => shape e :: shapeL r
 end
+end
 
-theorem shape_text (e : Err) : (shape e).text = text e := by
+theorem shape_text (vf : Err → Str) (e : Err) : (shape vf e).text = text e := by
   cases e <;> simp [shape, TTree.text, label]
 
-theorem text_eq_of_shape {a b : Err} (h : shape a = shape b) : text a = text b := by
-  rw [← shape_text a, ← shape_text b, h]
+theorem text_eq_of_shape {vf : Err → Str} {a b : Err} (h : shape vf a = shape vf b) : text a = text b := by
+  rw [← shape_text vf a, ← shape_text vf b, h]
 
-theorem textList_eq_of_shapeL : ∀ {a b : List Err}, shapeL a = shapeL b → textList a = textList b
+theorem textList_eq_of_shapeL {vf : Err → Str} : ∀ {a b : List Err}, shapeL vf a = shapeL vf b → textList a = textList b
   | [], [], _ => rfl
   | [], _ :: _, h => by simp [shapeL] at h
   | _ :: _, [], h => by simp [shapeL] at h
@@ -73,7 +119,7 @@ theorem textList_eq_of_shapeL : ∀ {a b : List Err}, shapeL a = shapeL b → te
 
 /-- a foreign type: no decoder registered under its name, and not a migrated name -/
 def userOK (u : UserTy) : Bool :=
-  classify u.name = .other && Full.family u.name = u.name
+  classify u.name = .other && Full.family u.name = u.name && !isStackKey u.name
 
 def leafStable : LeafKind → Bool
   | .opaqueLeaf _ d hid => classify d.mark.fam = .other && !(hid.isEmpty && d.pay = .testErr)
@@ -81,6 +127,7 @@ def leafStable : LeafKind → Bool
   -- an OpaqueErrno (errno received from another architecture) is re-sent under its own type
   -- name, for which no decoder exists: its `Is` method is lost on the next hop (see DESIGN, D11)
   | .opaqueErrno .. => false
+  | .pkgFundamental _ st => st ≠ []
   -- a status with code OK is not an error (Status.Err() returns nil)
   | .grpcStatus c _ _ => c ≠ 0
   | .gogoStatus c _ _ => c ≠ 0
@@ -94,7 +141,10 @@ def wrapStable (k : WrapKind) (ct : Str) : Bool :=
       (if u.style = 0 then msg ≠ [] else if u.style = 1 then msg ≠ colonSp ++ ct else true)
   | .fmtWrapError msg => msg ≠ colonSp ++ ct
   -- WithContextTags never attaches an empty tag set, and a logtags buffer has distinct keys
-  | .withContext tags _ => tags ≠ [] && dedupTags tags = tags
+  | .withContext tags red => tags ≠ [] && dedupTags tags = tags && red ≠ some []
+  -- a captured stack is never empty (runtime.Callers returns at least the caller)
+  | .withStack st => st ≠ []
+  | .pkgWithStack st => st ≠ []
   | .withMark _ tys => tys ≠ []          -- a mark carries at least the type of its reference
   | _ => true
 
